@@ -141,6 +141,7 @@ type c13op struct {
 	// W5: the best connection reported a head at or beyond the target at this instant while the call was pending
 	reachedAt time.Duration
 	reached   bool
+	ownHead   uint32        // best: head of the returned client's own connection when the call returned
 	subAt     time.Duration // instant at which subscribe released the pool's write lock (-1: it never took it)
 }
 
@@ -272,8 +273,14 @@ func execC13(t *testing.T, w *core.World, p *run.Plan, r *run.Result) {
 	if p.Get("async", 0) == 1 {
 		// wait until at least one connection is in the pool (a wait issued before that dereferences a nil best
 		// connection: observation outside the listed properties, DESIGN 8.7)
-		w.Run(func() bool { return pl.SimSnapshot().BestID >= 0 }, w.Steps+40000, w.Now()+setupHorizon)
-		if pl.SimSnapshot().BestID < 0 {
+		haveConn := func() bool {
+			if p.Free {
+				return pl.ConnectionsNumber() > 0
+			}
+			return pl.SimSnapshot().BestID >= 0
+		}
+		w.Run(haveConn, w.Steps+40000, w.Now()+setupHorizon)
+		if !haveConn() {
 			w.Violate("C13.setup", "C13.setup|async", "no connection entered the pool in a fault-free asynchronous setup")
 			return
 		}
@@ -641,6 +648,14 @@ func execC13(t *testing.T, w *core.World, p *run.Plan, r *run.Result) {
 			if e == nil {
 				o.seqno = head.Seqno
 				o.connID = clientConnID(cl)
+				if !p.Free && o.connID >= 0 {
+					// controlled mode: only this goroutine runs, the lock-free view is consistent
+					for _, c := range pl.SimSnapshot().Conns {
+						if c.ID == o.connID {
+							o.ownHead = c.HeadSeqno
+						}
+					}
+				}
 			}
 		case "mcinfo":
 			c2, cancel := context.WithTimeout(ctx, timeout)
@@ -707,7 +722,13 @@ func execC13(t *testing.T, w *core.World, p *run.Plan, r *run.Result) {
 	}
 	w.Sched.DisableStalls()
 	w.Fair, w.PCT = true, false
-	w.Run(func() bool { return false }, w.Steps+60000, w.Now()+40*time.Second)
+	// a request that was in flight when its connection died only ends with the client's request timeout:
+	// the drain has to outlast it before the pool can be expected to be whole again
+	drain := 40 * time.Second
+	if timeout+15*time.Second > drain {
+		drain = timeout + 15*time.Second
+	}
+	w.Run(func() bool { return false }, w.Steps+80000, w.Now()+drain)
 	var probes []*c13op
 	probesDone := false
 	w.At(0, "probes", func() {
@@ -764,6 +785,21 @@ func execC13(t *testing.T, w *core.World, p *run.Plan, r *run.Result) {
 			continue
 		}
 		if !o.done {
+			// a call that began late is only "blocked" once its own deadline has passed
+			limit := o.start + time.Second
+			switch o.op.Kind {
+			case "wait":
+				limit = o.start + o.timeout + time.Second
+			case "best":
+				limit = o.start + 3*time.Second
+			case "mcinfo":
+				limit = o.start + timeout + time.Second
+			}
+			if w.Now() <= limit {
+				w.Probe("call-still-within-its-deadline-at-the-end")
+				allReturned = false
+				continue
+			}
 			w.Violate("C13.W4", "C13.W4|blocked|"+o.op.Kind, fmt.Sprintf("%s started at %v has not returned at %v (no faults for 40 s, fair schedule); parked lock requests: %s", name, o.start, w.Now(), strings.Join(w.Sched.Held(), "; ")))
 			r.Picture = core.BubbleStacks()
 			continue
@@ -820,7 +856,12 @@ func execC13(t *testing.T, w *core.World, p *run.Plan, r *run.Result) {
 				if got := srvMaxHeadAt(o.end); o.seqno > got {
 					w.Violate("C13.head", "C13.head|from-future", fmt.Sprintf("%s returned head %d, no server had reported more than %d", name, o.seqno, got))
 				}
-				if o.connID >= 0 {
+				if o.connID >= 0 && o.seqno > o.ownHead {
+					// BestMasterchainClient waited for the first head and the best connection changed meanwhile: the head
+					// it returns then belongs to the new best connection, not to the client it returns (observation,
+					// DESIGN 8; not part of the register history)
+					w.Probe("best-client-returned-with-head-of-another-connection")
+				} else if o.connID >= 0 {
 					regs = append(regs, regEvent{conn: o.connID, write: false, v: o.seqno, call: o.callStep, ret: o.retStep})
 				}
 			} else if o.caller == 99 {
